@@ -146,6 +146,8 @@ class Scope(ast.NodeVisitor):
             r = self.root(f.value)
             if r is not None and not self.is_local(r) and (r in self.module_globals or r in KNOWN_STATE):
                 self.site("mutator-global", node)
+        if isinstance(f, ast.Attribute) and f.attr in FOREIGN_MUTATORS and self.stack:
+            self.site("foreign-global-state", node)   # process-wide state of NumPy / warnings / random / sys changed from inside a function
         if isinstance(f, ast.Name) and f.id == "next" and self.stack and node.args:
             r = self.root(node.args[0])
             if r in ("self", "cls") or (r is not None and not self.is_local(r)):
@@ -157,6 +159,8 @@ class Scope(ast.NodeVisitor):
         self.generic_visit(node)
 
 
+FOREIGN_MUTATORS = {"seterr", "seterrcall", "setbufsize", "set_printoptions", "seed", "set_state", "simplefilter", "filterwarnings", "resetwarnings", "setrecursionlimit",
+                    "setswitchinterval", "putenv", "set_string_function", "setdefaultencoding"}
 KNOWN_STATE = {"primitive_vjps", "primitive_jvps", "notrace_primitives", "Box", "VSpace", "box_type_mappings", "box_types", "sparse_object_types", "nograd_functions",
                "trace_stack", "ArrayBox", "SequenceBox", "DictBox"}
 ALLOWED_FUNCS = {"defvjp_argnums", "defjvp_argnums", "register_notrace", "Box.register", "VSpace.register", "wrap_namespace", "wrap_intdtype"}
@@ -189,6 +193,9 @@ def run_frame(rep, tier):
             elif kind in ("attr", "aug", "next"):
                 ok = (rel, q, kind) in AUDITED or q.split(".")[-1] in ("__init__", "initialize_root")
                 why = "attribute store / counter draw outside the audited list"
+            elif kind == "foreign-global-state":
+                ok = False
+                why = "changes process-wide state of another library (error/warning/random state) without a restoring context manager: later calls see a different interpreter"
             elif kind in ("global-stmt", "nonlocal-stmt"):
                 ok = False
                 why = "global/nonlocal statement (hidden mutable state)"
